@@ -57,4 +57,11 @@ META["C20"]["note"] = S1NOTE + " A free-running variant compares totals after qu
 META["C08"]["text"] += " A free-running variant releases many callers together on fresh absent keys and rejects any two overlapping loader invocations for one key."
 META["C16"]["text"] += " A third test parks producers and the consumer at the hook points between index CAS and publication and inside resize."
 META["C17"]["text"] += " A third test parks recorders and the consumer at the hook points between tail CAS and slot store and inside the drain."
+MID = " A mid-scale variant (16-160 keys with skewed popularity, maxima 9-150, 60-600 actions) runs the same oracle with the admission window, the probation/protected queues, the hill climber and the sketch's aging at work."
+for _p in ("C01", "C04", "C05", "C06", "C07", "C20"):
+    META[_p]["text"] += MID
+META["C01"]["text"] += " A second interpreter, generic in the key type (strings, structs with strings / padding / interfaces / floats, arrays, +0/-0, interface keys, pointers; a fresh representation of the key on every call), covers the 'any key choice' part of the quantifier."
+META["C02"]["text"] += " Compute functions and loaders that panic are part of the operation mix (an atomic read that changes nothing / a failed load); single-writer filler keys are read back across table resizes."
+META["C02"]["note"] = S4NOTE + " A porcupine time-out is inconclusive."
+META["C13"]["text"] += " 'tick' actions fire the clock's ticker so that the cache's own periodic clean-up goroutine runs the maintenance."
 NOT_APPLICABLE = {}
